@@ -371,6 +371,79 @@ fn case(rng: &mut Rng, idx: usize, which: u8) -> String {
     format!("!e2e {detail}\t{verdict}\t{key}")
 }
 
+/// Clock recovery on a long stream (more than 2^24 samples: f32 sample counters stop being exact):
+/// symbols must keep coming out at the symbol rate for the whole stream.
+fn clock_long(which: &str) -> String {
+    let sps = 40usize;
+    let total: usize = (1 << 24) + 3_000_000;
+    let label = format!("clock-long {which} sps={sps} samples={total}");
+    let r = quiet(|| -> std::result::Result<(), String> {
+        rustradio::verif::set_stream_size(0);
+        let (w, r) = rustradio::stream::new_stream::<f32>();
+        let (mut block, out): (B, rustradio::stream::ReadStream<f32>) = if which == "SymbolSync" {
+            let clock_filter = rustradio::iir_filter::IirFilter::new(&[0.5, 0.5]);
+            let (b, o) = SymbolSync::new(r, sps as f32, 0.5, Box::new(rustradio::symbol_sync::TedZeroCrossing::new()), Box::new(clock_filter));
+            (Box::new(b), o)
+        } else {
+            let (b, o) = ZeroCrossing::new(r, sps as f32, 0.5);
+            (Box::new(b), o)
+        };
+        let _wd = deadline(300, format!("{label}: work()"));
+        let mut fed = 0usize;
+        let mut symbols_total = 0usize;
+        let mut symbols_late = 0usize; // symbols delivered for input beyond 2^24 samples
+        let mut lfsr = 0xACE1u32;
+        let mut level = 1.0f32;
+        while fed < total {
+            {
+                let mut wb = w.write_buf().map_err(|e| e.to_string())?;
+                let n = wb.len().min(total - fed);
+                for i in 0..n {
+                    if (fed + i) % sps == 0 {
+                        // pseudo-random NRZ with frequent transitions
+                        lfsr = (lfsr >> 1) ^ (if lfsr & 1 == 1 { 0xB400 } else { 0 });
+                        if lfsr & 3 != 0 {
+                            level = -level;
+                        }
+                    }
+                    wb.slice()[i] = 0.4 * level;
+                }
+                wb.produce(n, &[]);
+                fed += n;
+            }
+            for _ in 0..8 {
+                match block.work().map_err(|e| e.to_string())? {
+                    BlockRet::Again => {}
+                    _ => break,
+                }
+                let (rb, _) = out.read_buf().map_err(|e| e.to_string())?;
+                let n = rb.len();
+                symbols_total += n;
+                if fed > (1 << 24) + 200_000 {
+                    symbols_late += n;
+                }
+                rb.consume(n);
+            }
+        }
+        let want = total / sps;
+        if symbols_total * 100 < want * 98 || symbols_total * 100 > want * 102 {
+            return Err(format!("{symbols_total} symbols for {total} samples at {sps} samples/symbol (expected about {want})"));
+        }
+        if symbols_late < 2_000_000 / sps {
+            return Err(format!("only {symbols_late} symbols were delivered for the last 2.8 million samples: clock recovery stalled on a long stream"));
+        }
+        Ok(())
+    });
+    format!(
+        "!e2e {label}\t{}\te2e-clock-long",
+        match r {
+            Ok(Ok(())) => "pass".to_string(),
+            Ok(Err(e)) => format!("FAIL {e}"),
+            Err(p) => format!("FAIL panic: {p}"),
+        }
+    )
+}
+
 pub fn run(args: &[String]) -> Vec<String> {
     let seed = arg_usize(args, "--seed", 1) as u64;
     let cases = arg_usize(args, "--cases", 10);
@@ -379,6 +452,10 @@ pub fn run(args: &[String]) -> Vec<String> {
     for i in 0..cases {
         let mut r = rng.fork();
         out.push(case(&mut r, i, (i % 2) as u8));
+    }
+    if arg_usize(args, "--long", 1) != 0 {
+        out.push(clock_long("SymbolSync"));
+        out.push(clock_long("ZeroCrossing"));
     }
     if arg_usize(args, "--probes", 0) != 0 {
         // known finding: the 9600 example as written uses SymbolSync, which slips at 5.208 samples/symbol
